@@ -189,7 +189,7 @@ def cbmc_cmd(q, cfile, witness, trace, backend=None):
     backend = backend or q.backend
     cmd = ["cbmc", cfile, "--function", "ll2c_main", "--unwind", str(q.unwind), "--unwinding-assertions",
            "--no-malloc-may-fail", "--drop-unused-functions", "--undefined-shift-check", "--signed-overflow-check",
-           "--json-ui", f"-DLL2C_CAP={q.ll2c_cap}UL", f"-DLL2C_MEMCAP={q.memcap}UL", f"-DLL2C_NIN={q.nin}"]
+           "--json-ui", "--object-bits", "10", f"-DLL2C_CAP={q.ll2c_cap}UL", f"-DLL2C_MEMCAP={q.memcap}UL", f"-DLL2C_NIN={q.nin}"]
     if not q.no_pointer_overflow:
         cmd.append("--pointer-overflow-check")
     if witness:
